@@ -275,6 +275,10 @@ func readOperationPack(def Definition, repo repository.RepoData, resolvers entit
 	// Verify signature if we expect one
 	keys := author.ValidKeysAtTime(fmt.Sprintf(editClockPattern, def.Namespace), editTime)
 	if len(keys) > 0 {
+		if commit.SignedData == nil || commit.Signature == nil {
+			return nil, fmt.Errorf("signature failure: missing signature")
+		}
+
 		// this is a *very* convoluted and inefficient way to make OpenPGP accept to check a signature, but anything
 		// else goes against the grain and make it very unhappy.
 		keyring := openpgp.EntityList{}
